@@ -813,6 +813,9 @@ func startServers(serverList []Server, inst *Instance, restartFds map[string]res
 		if pc == nil {
 			pc, err = s.ListenPacket()
 			if err != nil {
+				// a failed ListenPacket may hand back a typed nil (net.ListenUDP
+				// does); the deferred cleanup must not call Close on it
+				pc = nil
 				return fmt.Errorf("ListenPacket: %v", err)
 			}
 		}
